@@ -99,7 +99,12 @@ class Smt:
             return self.const("s!" + t[1])
         if k == "app":
             args = [self.v(a) for a in t[2]]
-            return self.fn("f!" + t[1], len(args))(*args) if args else self.const("f0!" + t[1])
+            r = self.fn("f!" + t[1], len(args))(*args) if args else self.const("f0!" + t[1])
+            # library facts: these Option / Result adaptors keep the variant (Some stays Some, None stays None)
+            if len(args) == 1 and t[1] in ("Option::cloned", "Option::copied", "Option::as_ref", "Option::as_mut", "Option::as_deref", "Option.Clone::clone",
+                                           "Result::as_ref", "Result.Clone::clone"):
+                self.axioms.append(self.disc(r) == self.disc(args[0]))
+            return r
         if k == "out":
             args = [self.v(a) for a in t[3]]
             return self.fn("out%d!%s" % (t[2], t[1]), len(args))(*args)
